@@ -2,6 +2,7 @@ package main
 
 import (
 	"fmt"
+	"go/token"
 	"go/types"
 	"strings"
 
@@ -15,8 +16,10 @@ import (
 // operation makes the set "everything".
 
 type effSet struct {
-	vars  map[string]bool // may be written at arbitrary references
-	fresh map[string]bool // written only at references allocated during the call
+	vars  map[string]bool         // may be written at arbitrary references
+	fresh map[string]bool         // written only at references allocated during the call
+	pw    map[int]map[string]bool // written only inside the object passed as parameter i (receiver = 0)
+	cp    map[int]bool            // calls its func-typed parameter i
 	all   bool
 	why   string
 }
@@ -33,21 +36,181 @@ func (eng *Engine) scratchVC() *VC {
 // callees whose effects must be added.
 var effWhy = map[*ssa.Function]string{}
 
-func (eng *Engine) directEffects(fn *ssa.Function) (map[string]bool, map[string]bool, []*ssa.Function, bool) {
+type argClass struct {
+	kind int // 0 other, 1 fresh (allocated by the caller during this call), 2 the caller's own parameter q
+	q    int
+}
+
+type callSite struct {
+	callee *ssa.Function
+	args   []argClass
+	funArg []*ssa.Function // statically known function passed as argument i (closure or func value), else nil
+}
+
+// calleeList collects callees; siteArgs is the classification of the actual
+// arguments of the call currently being added.
+type calleeList struct {
+	sites    []callSite
+	siteArgs []argClass
+	siteFuns []*ssa.Function
+}
+
+func (cl *calleeList) add(fs ...*ssa.Function) {
+	for _, f := range fs {
+		cl.sites = append(cl.sites, callSite{f, cl.siteArgs, cl.siteFuns})
+	}
+}
+
+func staticFuncOf(v ssa.Value) *ssa.Function {
+	switch x := v.(type) {
+	case *ssa.MakeClosure:
+		if f, ok := x.Fn.(*ssa.Function); ok {
+			return f
+		}
+	case *ssa.Function:
+		return x
+	case *ssa.ChangeType:
+		return staticFuncOf(x.X)
+	}
+	return nil
+}
+
+// paramRoot: v is (an interior pointer into / a sub-slice of) parameter q of fn.
+func paramRoot(fn *ssa.Function, v ssa.Value, depth int) (int, bool) {
+	if depth > 8 {
+		return 0, false
+	}
+	switch x := v.(type) {
+	case *ssa.Parameter:
+		for i, p := range fn.Params {
+			if p == x {
+				return i, true
+			}
+		}
+	case *ssa.FreeVar:
+		// captured variable k of a closure: index -(k+1)
+		for k, fv := range fn.FreeVars {
+			if fv == x {
+				return -(k + 1), true
+			}
+		}
+	case *ssa.FieldAddr:
+		return paramRoot(fn, x.X, depth+1)
+	case *ssa.IndexAddr:
+		return paramRoot(fn, x.X, depth+1)
+	case *ssa.Slice:
+		return paramRoot(fn, x.X, depth+1)
+	case *ssa.ChangeType:
+		return paramRoot(fn, x.X, depth+1)
+	case *ssa.MakeInterface:
+		return paramRoot(fn, x.X, depth+1)
+	}
+	return 0, false
+}
+
+func (eng *Engine) classifyArg(fn *ssa.Function, a ssa.Value) argClass {
+	v := a
+	for {
+		switch x := v.(type) {
+		case *ssa.ChangeType:
+			v = x.X
+			continue
+		case *ssa.MakeInterface:
+			v = x.X
+			continue
+		}
+		break
+	}
+	if isAllocBased(v) || eng.freshBase(v, 0) {
+		return argClass{kind: 1}
+	}
+	if q, ok := paramRoot(fn, v, 0); ok {
+		return argClass{kind: 2, q: q}
+	}
+	return argClass{}
+}
+
+func (eng *Engine) directEffects(fn *ssa.Function) (map[string]bool, map[string]bool, map[int]map[string]bool, map[int]bool, []callSite, bool) {
 	vc := eng.scratchVC()
 	vars := map[string]bool{}
 	fresh := map[string]bool{}
-	var callees []*ssa.Function
+	pw := map[int]map[string]bool{}
+	cp := map[int]bool{}
+	callees := &calleeList{}
 	all := false
 	addCall := func(c *ssa.CallCommon) {
 		if b, ok := c.Value.(*ssa.Builtin); ok {
-			_ = b
-			if vc.callEffects(c, vars, 99) {
+			// append/copy write the elements of their first argument
+			tmp := map[string]bool{}
+			if vc.callEffects(c, tmp, 99) {
 				all = true
+			}
+			dst := map[string]bool{}
+			switch b.Name() {
+			case "append":
+				// append writes into its first argument's spare capacity or a fresh array;
+				// writes into spare capacity are invisible through any existing slice
+				// header only if nobody else holds the array: keep it conservative unless fresh
+				cls := eng.classifyArg(fn, c.Args[0])
+				if cls.kind == 1 || isNilConst(c.Args[0]) {
+					dst = fresh
+				} else if cls.kind == 2 {
+					if pw[cls.q] == nil {
+						pw[cls.q] = map[string]bool{}
+					}
+					dst = pw[cls.q]
+				} else {
+					dst = vars
+				}
+			case "copy":
+				cls := eng.classifyArg(fn, c.Args[0])
+				if cls.kind == 1 {
+					dst = fresh
+				} else if cls.kind == 2 {
+					if pw[cls.q] == nil {
+						pw[cls.q] = map[string]bool{}
+					}
+					dst = pw[cls.q]
+				} else {
+					dst = vars
+				}
+			default:
+				dst = vars
+			}
+			for v := range tmp {
+				dst[v] = true
 			}
 			return
 		}
+		// classify the actual arguments (receiver first for invoke)
+		var actuals []ssa.Value
+		if c.IsInvoke() {
+			actuals = append(actuals, c.Value)
+		}
+		actuals = append(actuals, c.Args...)
+		callees.siteArgs = nil
+		callees.siteFuns = nil
+		for _, a := range actuals {
+			callees.siteArgs = append(callees.siteArgs, eng.classifyArg(fn, a))
+			callees.siteFuns = append(callees.siteFuns, staticFuncOf(a))
+		}
 		callee := c.StaticCallee()
+		if callee == nil && !c.IsInvoke() {
+			// a call of one of fn's own func-typed parameters: resolved at fn's call sites
+			if p, ok := c.Value.(*ssa.Parameter); ok && !repoPrivateFuncType(p.Type()) {
+				for i, q := range fn.Params {
+					if q == p {
+						cp[i] = true
+						return
+					}
+				}
+			}
+			// a call of a closure created in this function
+			if f := staticFuncOf(c.Value); f != nil {
+				callees.add(f)
+				return
+			}
+		}
 		if callee == nil {
 			if tc := eng.typeContract(c); tc != nil && (tc.ModSet || tc.Pure) {
 				if !tc.Pure && vc.contractEffects(tc, nil, vars) {
@@ -57,7 +220,7 @@ func (eng *Engine) directEffects(fn *ssa.Function) (map[string]bool, map[string]
 			} else if tc != nil && tc.RepoImpls && c.IsInvoke() {
 				if n, ok := types.Unalias(c.Value.Type()).(*types.Named); ok {
 					if impls := eng.implementations(n, c.Method); len(impls) > 0 {
-						callees = append(callees, impls...)
+						callees.add(impls...)
 						return
 					}
 				}
@@ -65,7 +228,7 @@ func (eng *Engine) directEffects(fn *ssa.Function) (map[string]bool, map[string]
 			// an unexported interface can only be implemented inside the repository
 			if n, ok := types.Unalias(c.Value.Type()).(*types.Named); ok && c.IsInvoke() && !n.Obj().Exported() && n.Obj().Pkg() != nil && strings.HasPrefix(n.Obj().Pkg().Path(), repoPrefix) {
 				if impls := eng.implementations(n, c.Method); len(impls) > 0 {
-					callees = append(callees, impls...)
+					callees.add(impls...)
 					return
 				}
 			}
@@ -73,7 +236,7 @@ func (eng *Engine) directEffects(fn *ssa.Function) (map[string]bool, map[string]
 			// repository's own address-taken functions of that signature
 			if n, ok := types.Unalias(c.Value.Type()).(*types.Named); ok && !c.IsInvoke() && !n.Obj().Exported() && strings.HasPrefix(n.Obj().Pkg().Path(), repoPrefix) {
 				if sig, ok := n.Underlying().(*types.Signature); ok {
-					callees = append(callees, eng.funcsWithSig(sig)...)
+					callees.add(eng.funcsWithSig(sig)...)
 					return
 				}
 			}
@@ -94,7 +257,7 @@ func (eng *Engine) directEffects(fn *ssa.Function) (map[string]bool, map[string]
 							break
 						}
 						if f := eng.prog.MethodValue(sel); f != nil {
-							callees = append(callees, f)
+							callees.add(f)
 						} else {
 							okAll = false
 						}
@@ -136,7 +299,7 @@ func (eng *Engine) directEffects(fn *ssa.Function) (map[string]bool, map[string]
 			all = true
 			return
 		}
-		callees = append(callees, callee)
+		callees.add(callee)
 	}
 	for _, b := range fn.Blocks {
 		for _, in := range b.Instrs {
@@ -154,6 +317,11 @@ func (eng *Engine) directEffects(fn *ssa.Function) (map[string]bool, map[string]
 			case *ssa.Store:
 				if isAllocBased(x.Addr) || eng.freshBase(x.Addr, 0) {
 					vc.instrEffects(in, fresh, 99)
+				} else if q, ok := paramRoot(fn, x.Addr, 0); ok {
+					if pw[q] == nil {
+						pw[q] = map[string]bool{}
+					}
+					vc.instrEffects(in, pw[q], 99)
 				} else if vc.instrEffects(in, vars, 99) {
 					all = true
 				}
@@ -175,7 +343,12 @@ func (eng *Engine) directEffects(fn *ssa.Function) (map[string]bool, map[string]
 	if len(vars) > 0 {
 		effWhy[fn] += " direct-writes:" + strings.Join(sortedKeys(vars), ",")
 	}
-	return vars, fresh, callees, all
+	return vars, fresh, pw, cp, callees.sites, all
+}
+
+func isNilConst(v ssa.Value) bool {
+	c, ok := v.(*ssa.Const)
+	return ok && c.Value == nil
 }
 
 // inferredEffects returns the transitive write set of fn.
@@ -185,10 +358,12 @@ func (eng *Engine) inferredEffects(fn *ssa.Function) *effSet {
 	}
 	// reachable set
 	type node struct {
-		vars    map[string]bool
-		fresh   map[string]bool
-		callees []*ssa.Function
-		all     bool
+		vars  map[string]bool
+		fresh map[string]bool
+		pw    map[int]map[string]bool
+		cp    map[int]bool
+		sites []callSite
+		all   bool
 	}
 	nodes := map[*ssa.Function]*node{}
 	var order []*ssa.Function
@@ -198,39 +373,105 @@ func (eng *Engine) inferredEffects(fn *ssa.Function) *effSet {
 			return
 		}
 		if es, ok := eng.effMemo[f]; ok {
-			nodes[f] = &node{vars: es.vars, fresh: es.fresh, all: es.all}
+			nodes[f] = &node{vars: es.vars, fresh: es.fresh, pw: es.pw, cp: es.cp, all: es.all}
 			return
 		}
-		v, fr, c, a := eng.directEffects(f)
-		n := &node{vars: v, fresh: fr, callees: c, all: a}
+		v, fr, pw, cp, c, a := eng.directEffects(f)
+		n := &node{vars: v, fresh: fr, pw: pw, cp: cp, sites: c, all: a}
 		nodes[f] = n
 		order = append(order, f)
-		for _, cf := range c {
-			visit(cf)
+		for _, cs := range c {
+			visit(cs.callee)
+			for _, ff := range cs.funArg {
+				if ff != nil {
+					visit(ff)
+				}
+			}
 		}
 	}
 	visit(fn)
+	add := func(dst map[string]bool, v string, changed *bool) {
+		if !dst[v] {
+			dst[v] = true
+			*changed = true
+		}
+	}
 	changed := true
 	for changed {
 		changed = false
 		for _, f := range order {
 			n := nodes[f]
-			for _, cf := range n.callees {
-				cn := nodes[cf]
+			for _, cs := range n.sites {
+				cn := nodes[cs.callee]
 				if cn.all && !n.all {
 					n.all = true
 					changed = true
 				}
 				for v := range cn.vars {
-					if !n.vars[v] {
-						n.vars[v] = true
-						changed = true
-					}
+					add(n.vars, v, &changed)
 				}
 				for v := range cn.fresh {
-					if !n.fresh[v] {
-						n.fresh[v] = true
+					add(n.fresh, v, &changed)
+				}
+				// the callee calls its func-typed parameter pi: add the effects of the
+				// function passed there (when it is statically known)
+				for pi := range cn.cp {
+					var ff *ssa.Function
+					if pi >= 0 && pi < len(cs.funArg) {
+						ff = cs.funArg[pi]
+					}
+					if ff == nil {
+						// passed through from our own parameter?
+						if pi >= 0 && pi < len(cs.args) && cs.args[pi].kind == 2 {
+							if !n.cp[cs.args[pi].q] {
+								n.cp[cs.args[pi].q] = true
+								changed = true
+							}
+							continue
+						}
+						if !n.all {
+							n.all = true
+							changed = true
+						}
+						continue
+					}
+					fnode := nodes[ff]
+					if fnode == nil {
+						continue
+					}
+					if fnode.all && !n.all {
+						n.all = true
 						changed = true
+					}
+					for v := range fnode.vars {
+						add(n.vars, v, &changed)
+					}
+					for v := range fnode.fresh {
+						add(n.fresh, v, &changed)
+					}
+					for _, ws := range fnode.pw {
+						for v := range ws {
+							add(n.vars, v, &changed)
+						}
+					}
+				}
+				for pi, ws := range cn.pw {
+					cls := argClass{}
+					if pi >= 0 && pi < len(cs.args) {
+						cls = cs.args[pi]
+					}
+					for v := range ws {
+						switch cls.kind {
+						case 1:
+							add(n.fresh, v, &changed)
+						case 2:
+							if n.pw[cls.q] == nil {
+								n.pw[cls.q] = map[string]bool{}
+							}
+							add(n.pw[cls.q], v, &changed)
+						default:
+							add(n.vars, v, &changed)
+						}
 					}
 				}
 			}
@@ -238,7 +479,7 @@ func (eng *Engine) inferredEffects(fn *ssa.Function) *effSet {
 	}
 	for _, f := range order {
 		n := nodes[f]
-		eng.effMemo[f] = &effSet{vars: n.vars, fresh: n.fresh, all: n.all}
+		eng.effMemo[f] = &effSet{vars: n.vars, fresh: n.fresh, pw: n.pw, cp: n.cp, all: n.all}
 	}
 	return eng.effMemo[fn]
 }
@@ -302,8 +543,107 @@ func (vc *VC) havocCallee(st *State, callee *ssa.Function, name string) {
 		es := vc.eng.inferredEffects(callee)
 		if !es.all {
 			vc.note("inferred write set used for " + name)
-			vc.havocVars(st, es.vars, es.fresh)
-			return
+			vars := es.vars
+			if len(es.pw) > 0 {
+				// writes inside the objects passed as arguments: harmless when the
+				// argument was allocated by the caller (fresh-only), otherwise arbitrary
+				vars = map[string]bool{}
+				for v := range es.vars {
+					vars[v] = true
+				}
+				for pi, ws := range es.pw {
+					freshArg := false
+					if c := vc.curCall; c != nil && vc.curCaller != nil {
+						var actuals []ssa.Value
+						if c.IsInvoke() {
+							actuals = append(actuals, c.Value)
+						}
+						actuals = append(actuals, c.Args...)
+						if pi < len(actuals) && vc.eng.classifyArg(vc.curCaller, actuals[pi]).kind == 1 {
+							freshArg = true
+						}
+					}
+					if !freshArg {
+						for v := range ws {
+							vars[v] = true
+						}
+					}
+				}
+			}
+			// the callee calls back a function passed as argument: its effects count too
+			okCP := true
+			for pi := range es.cp {
+				var ff *ssa.Function
+				if c := vc.curCall; c != nil {
+					var actuals []ssa.Value
+					if c.IsInvoke() {
+						actuals = append(actuals, c.Value)
+					}
+					actuals = append(actuals, c.Args...)
+					if pi < len(actuals) {
+						ff = staticFuncOf(actuals[pi])
+					}
+				}
+				if ff == nil {
+					okCP = false
+					break
+				}
+				fes := vc.eng.inferredEffects(ff)
+				if fes.all {
+					okCP = false
+					break
+				}
+				if len(vars) == len(es.vars) {
+					nv := map[string]bool{}
+					for v := range vars {
+						nv[v] = true
+					}
+					vars = nv
+				}
+				for v := range fes.vars {
+					vars[v] = true
+				}
+				for qi, ws := range fes.pw {
+					if qi < 0 {
+						// a write to captured variable k of the closure: exactly the cell the
+						// caller bound there changes
+						k := -qi - 1
+						done := false
+						if c := vc.curCall; c != nil && vc.curFrame != nil {
+							var actuals []ssa.Value
+							if c.IsInvoke() {
+								actuals = append(actuals, c.Value)
+							}
+							actuals = append(actuals, c.Args...)
+							if pi < len(actuals) {
+								if mc, ok := actuals[pi].(*ssa.MakeClosure); ok && k < len(mc.Bindings) {
+									cell := vc.curFrame.val(mc.Bindings[k])
+									if cell.T != "" && cell.Place == nil {
+										for v := range ws {
+											if _, in := vc.heapSort[v]; in && strings.HasPrefix(vc.heapSort[v], "(Array Ref ") {
+												es := strings.TrimSuffix(strings.TrimPrefix(vc.heapSort[v], "(Array Ref "), ")")
+												nv := vc.freshConst(v+"_at", es)
+												vc.set(st, v, "(store "+vc.get(st, v)+" "+cell.T+" "+nv+")")
+											}
+										}
+										done = true
+									}
+								}
+							}
+						}
+						if done {
+							continue
+						}
+					}
+					for v := range ws {
+						vars[v] = true
+					}
+				}
+			}
+			if okCP {
+				vc.havocVars(st, vars, es.fresh)
+				return
+			}
 		}
 	}
 	vc.note("call havocs the whole heap (dynamic or unknown callees reachable): " + name)
@@ -385,31 +725,43 @@ func (eng *Engine) implementations(iface *types.Named, m *types.Func) []*ssa.Fun
 // freshBase: the object a store writes to was allocated during the current
 // call — directly, or by a callee that returns only objects it allocated.
 func (eng *Engine) freshBase(addr ssa.Value, depth int) bool {
-	if depth > 6 {
+	return eng.freshBaseV(addr, depth, map[ssa.Value]bool{})
+}
+
+func (eng *Engine) freshBaseV(addr ssa.Value, depth int, visiting map[ssa.Value]bool) bool {
+	if depth > 8 {
 		return false
+	}
+	if visiting[addr] {
+		return true // a cycle through phis: fresh if every other source is
 	}
 	switch x := addr.(type) {
 	case *ssa.Alloc:
 		return true
 	case *ssa.FieldAddr:
-		return eng.freshBase(x.X, depth+1)
+		return eng.freshBaseV(x.X, depth+1, visiting)
 	case *ssa.IndexAddr:
-		return eng.freshBase(x.X, depth+1)
+		return eng.freshBaseV(x.X, depth+1, visiting)
 	case *ssa.MakeSlice, *ssa.MakeMap:
 		return true
 	case *ssa.Slice:
-		return eng.freshBase(x.X, depth+1)
+		return eng.freshBaseV(x.X, depth+1, visiting)
+	case *ssa.ChangeType:
+		return eng.freshBaseV(x.X, depth+1, visiting)
 	case *ssa.Phi:
+		visiting[x] = true
+		defer delete(visiting, x)
 		for _, e := range x.Edges {
-			if e == ssa.Value(x) {
-				continue
-			}
-			if !eng.freshBase(e, depth+1) {
+			if !eng.freshBaseV(e, depth+1, visiting) {
 				return false
 			}
 		}
 		return len(x.Edges) > 0
 	case *ssa.Call:
+		if b, ok := x.Call.Value.(*ssa.Builtin); ok && b.Name() == "append" && len(x.Call.Args) > 0 {
+			// append to a fresh (or nil) slice yields a slice over fresh storage
+			return isNilConst(x.Call.Args[0]) || eng.freshBaseV(x.Call.Args[0], depth+1, visiting)
+		}
 		c := x.Call.StaticCallee()
 		return c != nil && eng.returnsFresh(c)
 	case *ssa.Extract:
@@ -417,8 +769,138 @@ func (eng *Engine) freshBase(addr ssa.Value, depth int) bool {
 			c := call.Call.StaticCallee()
 			return c != nil && eng.returnsFreshAt(c, x.Index)
 		}
+	case *ssa.UnOp:
+		// a load from a local variable cell (possibly captured by closures) that
+		// only ever holds storage allocated here: `acc = append(acc, v)` accumulators
+		if x.Op == token.MUL {
+			// constructor(arg).field where the constructor stores its parameter in
+			// that field of the object it allocates: as fresh as the argument
+			if fa, ok := x.X.(*ssa.FieldAddr); ok {
+				if call, ok := fa.X.(*ssa.Call); ok {
+					if c := call.Call.StaticCallee(); c != nil && eng.returnsFresh(c) {
+						if pi, ok := eng.fieldFromParam(c, fa.Field); ok && pi < len(call.Call.Args) {
+							return eng.freshBaseV(call.Call.Args[pi], depth+1, visiting)
+						}
+					}
+				}
+			}
+			if cell := eng.cellOf(x.X); cell != nil {
+				visiting[x] = true
+				defer delete(visiting, x)
+				return eng.accumulatorCell(cell, depth+1, visiting)
+			}
+		}
 	}
 	return false
+}
+
+// cellOf resolves an address to the local variable cell (an Alloc of the
+// enclosing function) it denotes, looking through closure captures.
+func (eng *Engine) cellOf(addr ssa.Value) *ssa.Alloc {
+	switch a := addr.(type) {
+	case *ssa.Alloc:
+		return a
+	case *ssa.FreeVar:
+		fn := a.Parent()
+		parent := fn.Parent()
+		if parent == nil {
+			return nil
+		}
+		idx := -1
+		for i, fv := range fn.FreeVars {
+			if fv == a {
+				idx = i
+			}
+		}
+		var found *ssa.Alloc
+		for _, b := range parent.Blocks {
+			for _, in := range b.Instrs {
+				if mc, ok := in.(*ssa.MakeClosure); ok && mc.Fn == fn && idx >= 0 && idx < len(mc.Bindings) {
+					c := eng.cellOf(mc.Bindings[idx])
+					if c == nil || (found != nil && found != c) {
+						return nil
+					}
+					found = c
+				}
+			}
+		}
+		return found
+	}
+	return nil
+}
+
+// accumulatorCell: every value ever stored into the variable cell is storage
+// allocated by this function family (make, nil, append to the cell's own
+// value, a reslice of it), and the cell's address is used only for loads,
+// stores and closure captures.
+func (eng *Engine) accumulatorCell(cell *ssa.Alloc, depth int, visiting map[ssa.Value]bool) bool {
+	if eng.accMemo == nil {
+		eng.accMemo = map[*ssa.Alloc]int{}
+	}
+	switch eng.accMemo[cell] {
+	case 1:
+		return true
+	case 2:
+		return false
+	case 3:
+		return true // in progress (cycle): fresh if everything else is
+	}
+	eng.accMemo[cell] = 3
+	ok := true
+	var addrs []ssa.Value
+	addrs = append(addrs, cell)
+	// free variables of the closures (transitively) that capture the cell
+	var walk func(fn *ssa.Function, v ssa.Value)
+	walk = func(fn *ssa.Function, v ssa.Value) {
+		for _, b := range fn.Blocks {
+			for _, in := range b.Instrs {
+				mc, isMC := in.(*ssa.MakeClosure)
+				if !isMC {
+					continue
+				}
+				for i, bnd := range mc.Bindings {
+					if bnd == v {
+						cf := mc.Fn.(*ssa.Function)
+						if i < len(cf.FreeVars) {
+							addrs = append(addrs, cf.FreeVars[i])
+							walk(cf, cf.FreeVars[i])
+						}
+					}
+				}
+			}
+		}
+	}
+	walk(cell.Parent(), cell)
+	for _, a := range addrs {
+		refs := a.Referrers()
+		if refs == nil {
+			continue
+		}
+		for _, r := range *refs {
+			switch y := r.(type) {
+			case *ssa.Store:
+				if y.Addr != a {
+					ok = false // the address itself is stored somewhere
+					continue
+				}
+				if isNilConst(y.Val) {
+					continue
+				}
+				if !eng.freshBaseV(y.Val, depth+1, visiting) {
+					ok = false
+				}
+			case *ssa.UnOp, *ssa.MakeClosure, *ssa.DebugRef:
+			default:
+				ok = false
+			}
+		}
+	}
+	if ok {
+		eng.accMemo[cell] = 1
+	} else {
+		eng.accMemo[cell] = 2
+	}
+	return ok
 }
 
 func (eng *Engine) returnsFresh(fn *ssa.Function) bool { return eng.returnsFreshAt(fn, 0) }
@@ -453,4 +935,65 @@ func (eng *Engine) returnsFreshAt(fn *ssa.Function, idx int) bool {
 	}
 	eng.freshMemo[key] = ok && n > 0
 	return ok && n > 0
+}
+
+// repoPrivateFuncType: an unexported named func type of the repository; its
+// values can only be the repository's own functions of that signature, which
+// the class-hierarchy fallback enumerates.
+func repoPrivateFuncType(t types.Type) bool {
+	n, ok := types.Unalias(t).(*types.Named)
+	if !ok || n.Obj().Exported() || n.Obj().Pkg() == nil || !strings.HasPrefix(n.Obj().Pkg().Path(), repoPrefix) {
+		return false
+	}
+	_, isSig := n.Underlying().(*types.Signature)
+	return isSig
+}
+
+// fieldFromParam: fn returns an object it allocates, and the only store to
+// field `field` of that object stores fn's parameter number i.
+func (eng *Engine) fieldFromParam(fn *ssa.Function, field int) (int, bool) {
+	if len(fn.Blocks) == 0 {
+		return 0, false
+	}
+	var obj *ssa.Alloc
+	for _, b := range fn.Blocks {
+		for _, in := range b.Instrs {
+			if r, ok := in.(*ssa.Return); ok {
+				if len(r.Results) != 1 {
+					return 0, false
+				}
+				a, ok := r.Results[0].(*ssa.Alloc)
+				if !ok || (obj != nil && obj != a) {
+					return 0, false
+				}
+				obj = a
+			}
+		}
+	}
+	if obj == nil || obj.Referrers() == nil {
+		return 0, false
+	}
+	found := -1
+	for _, r := range *obj.Referrers() {
+		fa, ok := r.(*ssa.FieldAddr)
+		if !ok || fa.Field != field || fa.Referrers() == nil {
+			continue
+		}
+		for _, rr := range *fa.Referrers() {
+			st, ok := rr.(*ssa.Store)
+			if !ok || st.Addr != fa {
+				return 0, false
+			}
+			p, ok := st.Val.(*ssa.Parameter)
+			if !ok || found >= 0 {
+				return 0, false
+			}
+			for i, q := range fn.Params {
+				if q == p {
+					found = i
+				}
+			}
+		}
+	}
+	return found, found >= 0
 }
